@@ -279,6 +279,29 @@ struct Lower
         return cur;
     }
 
+    // trivial copy of an object sliced to an EMPTY base class (tag dispatch: iterator categories, sbepp tags): the copy has no state, so
+    // it is a zero-initialised value of the base type; the operand is still evaluated. (Avoids a struct-to-struct cast, which CBMC's SMT
+    // back ends cannot encode.)
+    bool isEmptySlice(const Expr* A)
+    {
+        A = A->IgnoreParens();
+        auto* CE = dyn_cast<CastExpr>(A);
+        if(!CE || (CE->getCastKind() != CK_DerivedToBase && CE->getCastKind() != CK_UncheckedDerivedToBase)) return false;
+        if(CE->getType()->isPointerType()) return false;
+        auto* B = CE->getType()->getAsCXXRecordDecl();
+        return B && B->getDefinition() && B->getDefinition()->isEmpty();
+    }
+    std::string emptySlice(const Expr* A)
+    {
+        A = A->IgnoreParens();
+        auto* CE = cast<CastExpr>(A);
+        auto* B = CE->getType()->getAsCXXRecordDecl();
+        needRecord(B);
+        const Expr* S = CE->getSubExpr();
+        std::string ev = S->isGLValue() ? "((void)&(" + lv(S) + "))" : "((void)" + rvOrVoid(S) + ")";
+        return "(" + ev + ", (" + ctype(CE->getType()) + "){0})";
+    }
+
     // lower a glvalue expression to a C lvalue
     std::string lv(const Expr* E)
     {
@@ -421,6 +444,7 @@ struct Lower
         if(auto* CE = dyn_cast<CXXConstructExpr>(I))
         {
             auto* CD = CE->getConstructor();
+            if(CD->isCopyOrMoveConstructor() && CD->isTrivial() && isEmptySlice(CE->getArg(0))) return "(" + target + " = " + emptySlice(CE->getArg(0)) + ")";
             if(CD->isCopyOrMoveConstructor() && CD->isTrivial()) return "(" + target + " = " + rv(CE->getArg(0)) + ")";
             if(CD->isDefaultConstructor() && CD->isTrivial()) return "(" + target + " = (" + ctype(CE->getType()) + "){0})";
             need(CD);
@@ -635,6 +659,7 @@ struct Lower
         if(auto* CE = dyn_cast<CXXConstructExpr>(E))
         {
             auto* CD = CE->getConstructor();
+            if(CD->isCopyOrMoveConstructor() && CD->isTrivial() && isEmptySlice(CE->getArg(0))) return emptySlice(CE->getArg(0));
             if(CD->isCopyOrMoveConstructor() && CD->isTrivial()) return rv(CE->getArg(0));
             std::string t = newTemp(CE->getType());
             return "(" + initInto(CE, t) + ", " + t + ")";
